@@ -20,10 +20,18 @@ class LikelihoodList(Likelihood):
         self.likelihoods = ModuleList(likelihoods)
 
     def expected_log_prob(self, *args, **kwargs):
-        return [
-            likelihood.expected_log_prob(*args_, **kwargs)
-            for likelihood, args_ in length_safe_zip(self.likelihoods, _get_tuple_args_(*args))
-        ]
+        if "noise" in kwargs:
+            noise = kwargs.pop("noise")
+            # if noise kwarg is passed, assume it's an iterable of noise tensors
+            return [
+                likelihood.expected_log_prob(*args_, **{**kwargs, "noise": noise_})
+                for likelihood, args_, noise_ in length_safe_zip(self.likelihoods, _get_tuple_args_(*args), noise)
+            ]
+        else:
+            return [
+                likelihood.expected_log_prob(*args_, **kwargs)
+                for likelihood, args_ in length_safe_zip(self.likelihoods, _get_tuple_args_(*args))
+            ]
 
     def forward(self, *args, **kwargs):
         if "noise" in kwargs:
@@ -40,10 +48,18 @@ class LikelihoodList(Likelihood):
             ]
 
     def pyro_sample_output(self, *args, **kwargs):
-        return [
-            likelihood.pyro_sample_output(*args_, **kwargs)
-            for likelihood, args_ in length_safe_zip(self.likelihoods, _get_tuple_args_(*args))
-        ]
+        if "noise" in kwargs:
+            noise = kwargs.pop("noise")
+            # if noise kwarg is passed, assume it's an iterable of noise tensors
+            return [
+                likelihood.pyro_sample_output(*args_, **{**kwargs, "noise": noise_})
+                for likelihood, args_, noise_ in length_safe_zip(self.likelihoods, _get_tuple_args_(*args), noise)
+            ]
+        else:
+            return [
+                likelihood.pyro_sample_output(*args_, **kwargs)
+                for likelihood, args_ in length_safe_zip(self.likelihoods, _get_tuple_args_(*args))
+            ]
 
     def __call__(self, *args, **kwargs):
         if "noise" in kwargs:
